@@ -70,7 +70,7 @@ def instances(tier, seed):
                     g = fam.G_FUN(N)
                 degree, scheme = [(2, 'radau'), (1, 'legendre'), (1, 'radau')][n % 3]
                 add(spec=s, cfg=Cfg(method, N=N, M=M, intg=intg or 'rk', grid=g, degree=degree, scheme=scheme), free=free,
-                    cT=cs[n % 3], ct0=cs[(n + 1) % 3], guess=Fr(7, 4))
+                    cT=cs[n % 3], ct0=cs[(n + 1) % 3], guess=Fr(7, 4), via_set_initial=(n % 2 == 1))
                 n += 1
     # seeded random problems (model, constraint set, objective): the relational comparison needs no reference semantics
     from .. import randspec
@@ -103,6 +103,15 @@ def run(item):
     sA.T = ('free', cT) if 'T' in free else ('num', cT)
     sA.t0 = ('free', ct0) if 't0' in free else ('num', ct0)
     guess = {'T': cT, 't0': ct0}
+    if item.get('via_set_initial'):
+        # the guess arrives through set_initial(ocp.T / ocp.t0, .) and overrides the one FreeTime() was declared with
+        from ..dsl import T as T_, t0 as t0_
+        if 'T' in free:
+            sA.T = ('free', cT + Fr(5, 4))
+            sA.initial = list(sA.initial) + [(T_, cT)]
+        if 't0' in free:
+            sA.t0 = ('free', ct0 - Fr(3, 4))
+            sA.initial = list(sA.initial) + [(t0_, ct0)]
     sB.T = ('num', cT)
     sB.t0 = ('num', ct0)
     # A0: free-time problem on fresh variables (to learn which variables are the horizon)
